@@ -447,6 +447,8 @@ func (w *World) lockAnalysis() *lckResult {
 		o := calleeObj(&c.Call)
 		return o != nil && (o == gm || o == am || o == jw)
 	}
+	rmwWant := lr.wantState
+	lr.wantState = func(in ssa.Instruction) bool { return rmwWant(in) || isEventChanOp(in) != "" || isIndexClosedTest(in) }
 	lr.g = w.VTA()
 	for fn, node := range lr.g.Nodes {
 		if fn == nil || !inModule(fn) || len(fn.Blocks) == 0 {
@@ -769,14 +771,19 @@ func (lr *lckResult) analyse(fn *ssa.Function, report bool) bool {
 							if i := strings.Index(g, "=>"); i >= 0 {
 								g = g[i+2:]
 							}
-							sat := !spawned && (mustHoldsClass(s, g) || heldByInvoker[g])
-							if !spawned && g == "core.DB.indexLocks[*]" && holdsClassW(s, "core.DB.mu") {
+							sat := !spawned && (guardSatisfied(s, g) || heldByInvoker[g])
+							if spawned && guardSatisfied(s, g) && joinedBeforeReturn(fn, mc) {
+								// fork-join: the parent holds the guard when it starts the worker and waits for it
+								// (sync.WaitGroup.Wait on every path to its return), so the guard covers the worker
 								sat = true
 							}
 							if !sat {
 								if spawned {
 									if !lr.reporting {
 										continue
+									}
+									if lr.unreachableHelper(fn) {
+										continue // dead code: an unexported function nobody calls
 									}
 									id := fnName(cf) + "|" + g
 									if _, ok := lr.guardViol[id]; !ok {
@@ -959,10 +966,7 @@ func (lr *lckResult) analyse(fn *ssa.Function, report bool) bool {
 							}
 							g = want
 						}
-						sat := mustHoldsClass(s, g)
-						if g == "core.DB.indexLocks[*]" && holdsClassW(s, "core.DB.mu") {
-							sat = true // the per-index maps may also be touched under the exclusive DB lock
-						}
+						sat := guardSatisfied(s, g)
 						if !sat {
 							w2 := why
 							if strings.Count(w2, " <- ") < 4 {
@@ -1121,6 +1125,61 @@ func mustHoldsClass(s lstate, class string) bool {
 	return false
 }
 
+// joinedBeforeReturn: every `go` that starts closure mc in fn is followed, on every path to a return of fn, by a
+// (*sync.WaitGroup).Wait — the workers cannot outlive the call.
+func joinedBeforeReturn(fn *ssa.Function, mc *ssa.MakeClosure) bool {
+	isWait := func(in ssa.Instruction) bool {
+		c, ok := in.(*ssa.Call)
+		if !ok {
+			return false
+		}
+		o := calleeObj(&c.Call)
+		return o != nil && o.Pkg() != nil && o.Pkg().Path() == "sync" && shortName(o) == "WaitGroup.Wait"
+	}
+	n := 0
+	for _, ref := range *mc.Referrers() {
+		g, ok := ref.(*ssa.Go)
+		if !ok {
+			continue
+		}
+		n++
+		if found, _ := (pathQuery{fn: fn, target: isReturn, avoid: isWait}).find(posOf(g)); found {
+			return false
+		}
+	}
+	return n > 0
+}
+
+// unreachableHelper: an unexported top-level function without any caller in the call graph.
+func (lr *lckResult) unreachableHelper(fn *ssa.Function) bool {
+	root := fn
+	for root.Parent() != nil {
+		root = root.Parent()
+	}
+	o, ok := root.Object().(*types.Func)
+	if !ok || o.Exported() {
+		return false
+	}
+	node := lr.g.Nodes[root]
+	return node == nil || len(node.In) == 0
+}
+
+// guardSatisfied: the guard class a callee requires is held, or one of its documented alternatives is:
+// the per-index maps may also be touched under the exclusive DB lock; mmap-backed vector bytes may be read under
+// activeMu (the in-flight-operation gate) or under metaMu — Index.Close takes both exclusively before it unmaps.
+func guardSatisfied(s lstate, g string) bool {
+	if mustHoldsClass(s, g) {
+		return true
+	}
+	switch g {
+	case "core.DB.indexLocks[*]":
+		return holdsClassW(s, "core.DB.mu")
+	case "hnsw.Index.activeMu":
+		return mustHoldsClass(s, "hnsw.Index.metaMu")
+	}
+	return false
+}
+
 func holdsClassW(s lstate, class string) bool {
 	for k, h := range s {
 		if k.class == class && h.must && h.mode == 'W' {
@@ -1145,6 +1204,10 @@ func propagatesRequirement(fn *ssa.Function) bool {
 	}
 	// unexported helpers: every caller is in the package and is checked at its call site
 	if o, ok := fn.Object().(*types.Func); ok && !o.Exported() {
+		return true
+	}
+	// accessor methods of hnsw.Node hand out the mmap-backed slices; the obligation is their caller's
+	if recv := fn.Signature.Recv(); recv != nil && strings.HasSuffix(recv.Type().String(), "hnsw.Node") {
 		return true
 	}
 	return false
@@ -1195,6 +1258,7 @@ var guardTable = []guardSpec{
 	{"engine.EventBus", "subscribers", []string{"engine.EventBus.mu"}},
 	{"hnsw.GraphOptimizer", "config", []string{"hnsw.GraphOptimizer.mu"}},
 	{"distance.Quantizer", "AbsMax", []string{"distance.Quantizer.mu"}},
+	{"hnsw.Node", "vec", []string{"hnsw.Index.activeMu", "hnsw.Index.metaMu"}},
 }
 
 func (lr *lckResult) checkGuarded(fn *ssa.Function, ins ssa.Instruction, s lstate, sum *lsummary, report bool) (changed bool) {
@@ -1700,6 +1764,8 @@ var lck5Exceptions = map[string]string{
 	"DB.Snapshot:core.GraphShard.mu":             "Snapshot read-locks all 128 graph shards in an ascending constant-bound loop before reading them",
 	"DB.LoadFromSnapshot:core.GraphShard.mu":     "LoadFromSnapshot write-locks all 128 graph shards in an ascending constant-bound loop (deferred unlocks) before replacing their contents",
 	"Index.LoadSnapshotData:hnsw.Index.metaMu":   "the index being loaded was created by hnsw.New in the same LoadFromSnapshot call and is not yet stored in DB.vectorIndexes: no other goroutine can reach it",
+	"Index.LoadSnapshotData:hnsw.Index.activeMu": "same reason: the index is not published yet, nothing can close it while it is being loaded",
+	"Index.UpdateNodePointer:hnsw.Index.activeMu": "called only by the arena compactor's goroutine; Index.Close stops the compactor and waits for it (StopCompactor, WaitForStopped) before it closes the arena — the order is checked by ORD-8b",
 }
 
 func sameHold(a, b map[lockKey]byte) bool {
@@ -1926,6 +1992,81 @@ func ruleLCK6(w *World, r *Report) {
 	}
 	if n == 0 {
 		r.Und("LCK-6", "Emit:send", w.Pos(fi.Decl.Pos()), "no send found in EventBus.Emit")
+	}
+}
+
+// isIndexClosedTest: a read of hnsw.Index's closed flag (isClosed(), IsClosed(), closed.Load()).
+func isIndexClosedTest(in ssa.Instruction) bool {
+	c, ok := in.(*ssa.Call)
+	if !ok {
+		return false
+	}
+	if g := c.Call.StaticCallee(); g != nil && (fnName(g) == "pkg/core/hnsw.(*Index).isClosed" || fnName(g) == "pkg/core/hnsw.(*Index).IsClosed") {
+		return true
+	}
+	o := calleeObj(&c.Call)
+	return o != nil && o.Pkg() != nil && o.Pkg().Path() == "sync/atomic" && shortName(o) == "Bool.Load" && recvIsField(c, "closed")
+}
+
+// isEventChanOp: a send on / close of a subscriber channel (chan engine.Event). Returns "send", "close" or "".
+func isEventChanOp(in ssa.Instruction) string {
+	isEvChan := func(v ssa.Value) bool {
+		ch, ok := v.Type().Underlying().(*types.Chan)
+		return ok && strings.HasSuffix(ch.Elem().String(), "engine.Event")
+	}
+	switch x := in.(type) {
+	case *ssa.Send:
+		if isEvChan(x.Chan) {
+			return "send"
+		}
+	case *ssa.Select:
+		for _, st := range x.States {
+			if st.Dir == types.SendOnly && isEvChan(st.Chan) {
+				return "send"
+			}
+		}
+	case *ssa.Call:
+		if b, ok := x.Call.Value.(*ssa.Builtin); ok && b.Name() == "close" && len(x.Call.Args) == 1 && isEvChan(x.Call.Args[0]) {
+			return "close"
+		}
+	}
+	return ""
+}
+
+// ruleLCK7: subscriber channels are closed by Unsubscribe/Close and written by Emit; both sides must be serialised
+// by the bus lock, or a send can hit a channel that was closed a moment earlier (panic: send on closed channel).
+func ruleLCK7(w *World, r *Report, lr *lckResult) {
+	r.Doc("LCK-7", "every send on a subscriber channel happens while EventBus.mu is held (any mode) and every close of one while it is held exclusively: a channel can never be closed between the moment a sender picked it and the send", 3)
+	const cls = "engine.EventBus.mu"
+	n := 0
+	per := map[string]int{}
+	var ins []ssa.Instruction
+	for in := range lr.mustAt {
+		if isEventChanOp(in) != "" {
+			ins = append(ins, in)
+		}
+	}
+	sort.Slice(ins, func(i, j int) bool { return ins[i].Pos() < ins[j].Pos() })
+	for _, in := range ins {
+		kind := isEventChanOp(in)
+		fn := in.Parent()
+		n++
+		per[shortFn(fn)+":"+kind]++
+		key := fmt.Sprintf("%s:%s#%d", shortFn(fn), kind, per[shortFn(fn)+":"+kind])
+		st := lr.mustAt[in]
+		ok := mustHoldsClass(st, cls)
+		if kind == "close" {
+			ok = holdsClassW(st, cls)
+		}
+		want := "held"
+		if kind == "close" {
+			want = "held exclusively"
+		}
+		r.Cond(ok, "LCK-7", key, w.Pos(in.Pos()), "EventBus.mu is "+want+" at the "+kind, shortFn(fn)+" does a "+kind+" on a subscriber channel without EventBus.mu "+want+": Unsubscribe/Close can close the channel between the moment Emit copied or picked it and the send — the writer that emits (VAdd, VSetMetadata, VLink …) panics with 'send on closed channel'")
+	}
+	r.Count("subscriber_channel_ops", n)
+	if n < 3 {
+		r.Und("LCK-7", "anchor:subscriber-channel-ops", "", fmt.Sprintf("expected the send in Emit and the closes in Unsubscribe and Close, found %d operations", n))
 	}
 }
 
@@ -2280,4 +2421,152 @@ func (lr *lckResult) leaksFrom(fn *ssa.Function, acq ssa.Instruction, class stri
 	}
 	found, _ := q.find(posOf(acq))
 	return found
+}
+
+// ruleLCK8: copy-on-write growth of the per-index arrays.
+// Element writers (nodes[id] = n, norms[id] = x) hold only their per-node shard lock; the function that replaces the
+// array by a larger copy must therefore hold EVERY shard lock from before it copies until after it publishes.
+func ruleLCK8(w *World, r *Report) {
+	r.Doc("LCK-8", "a function that publishes a freshly allocated copy of the node (or norm) array — setNodes/setNorms of a slice made in the same function — copies the old array only after a loop that write-locks every element of shardsMu, and releases them only afterwards: a concurrent writer that fills its slot under its shard lock cannot land in the array that is being thrown away", 1)
+	n := 0
+	for _, fn := range w.pkgSSAFuncs("pkg/core/hnsw") {
+		if fn.Parent() != nil {
+			continue
+		}
+		per := 0
+		for _, b := range fn.Blocks {
+			for _, in := range b.Instrs {
+				c, ok := in.(*ssa.Call)
+				if !ok {
+					continue
+				}
+				g := c.Call.StaticCallee()
+				if g == nil || !(fnName(g) == "pkg/core/hnsw.(*Index).setNodes" || fnName(g) == "pkg/core/hnsw.(*Index).setNorms") {
+					continue
+				}
+				// published value derives from a make in this function?
+				var mk *ssa.MakeSlice
+				v := c.Call.Args[len(c.Call.Args)-1]
+				for {
+					if sl, ok := v.(*ssa.Slice); ok {
+						v = sl.X
+						continue
+					}
+					break
+				}
+				mk, _ = v.(*ssa.MakeSlice)
+				if mk == nil {
+					continue // re-slicing the same array: nothing is thrown away
+				}
+				// the copy that fills it
+				var cp *ssa.Call
+				for _, ref := range *mk.Referrers() {
+					if cc, ok := ref.(*ssa.Call); ok {
+						if _, isCopy := isBuiltinCall(cc, "copy"); isCopy && cc.Call.Args[0] == ssa.Value(mk) {
+							cp = cc
+						}
+					}
+				}
+				n++
+				per++
+				key := fmt.Sprintf("%s:publish#%d", shortFn(fn), per)
+				if cp == nil {
+					r.Ok("LCK-8", key, w.Pos(c.Pos()), "the new array is not filled from the old one")
+					continue
+				}
+				// a lock-all loop whose exit dominates the copy
+				lockAll := false
+				for _, lb := range fn.Blocks {
+					for _, li := range lb.Instrs {
+						lc, ok := li.(*ssa.Call)
+						if !ok {
+							continue
+						}
+						o := calleeObj(&lc.Call)
+						if o == nil || o.Pkg() == nil || o.Pkg().Path() != "sync" || shortName(o) != "RWMutex.Lock" {
+							continue
+						}
+						ia, ok := lc.Call.Args[0].(*ssa.IndexAddr)
+						if !ok {
+							continue
+						}
+						ld, ok := ia.X.(*ssa.UnOp)
+						if !ok {
+							continue
+						}
+						fa, ok := ld.X.(*ssa.FieldAddr)
+						if !ok || fieldName(fa) != "shardsMu" {
+							continue
+						}
+						// index = loop variable of a range over shardsMu: phi+1 compared with len(shardsMu)
+						add, ok := ia.Index.(*ssa.BinOp)
+						if !ok || add.Op != token.ADD {
+							continue
+						}
+						phi, ok := add.X.(*ssa.Phi)
+						if !ok {
+							continue
+						}
+						full := false
+						for _, ref := range *add.Referrers() {
+							if cmp, ok := ref.(*ssa.BinOp); ok && cmp.Op == token.LSS {
+								if lenC, ok := cmp.Y.(*ssa.Call); ok {
+									if _, isLen := isBuiltinCall(lenC, "len"); isLen {
+										if l2, ok := lenC.Call.Args[0].(*ssa.UnOp); ok {
+											if f2, ok := l2.X.(*ssa.FieldAddr); ok && fieldName(f2) == "shardsMu" {
+												// starts at -1+1 = 0
+												for _, e := range phi.Edges {
+													if k, ok := constInt(e); ok && k == -1 {
+														full = true
+													}
+												}
+											}
+										}
+									}
+								}
+							}
+						}
+						if !full {
+							continue
+						}
+						// unconditional in the loop body, and the loop header dominates the copy
+						if lb.Dominates(cp.Block()) || (len(lb.Preds) == 1 && lb.Preds[0].Dominates(cp.Block()) && lb.Preds[0] != cp.Block()) {
+							lockAll = true
+						}
+					}
+				}
+				// not released before the publication: no RWMutex.Unlock on shardsMu on any path copy → publish
+				released := false
+				isShardUnlock := func(x ssa.Instruction) bool {
+					uc, ok := x.(*ssa.Call)
+					if !ok {
+						return false
+					}
+					o := calleeObj(&uc.Call)
+					if o == nil || o.Pkg() == nil || o.Pkg().Path() != "sync" || shortName(o) != "RWMutex.Unlock" {
+						return false
+					}
+					ia, ok := uc.Call.Args[0].(*ssa.IndexAddr)
+					if !ok {
+						return false
+					}
+					ld, ok := ia.X.(*ssa.UnOp)
+					if !ok {
+						return false
+					}
+					fa, ok := ld.X.(*ssa.FieldAddr)
+					return ok && fieldName(fa) == "shardsMu"
+				}
+				pub := ssa.Instruction(c)
+				if found, _ := (pathQuery{fn: fn, target: isShardUnlock, avoid: func(x ssa.Instruction) bool { return x == pub }}).find(posOf(cp)); found {
+					released = true
+				}
+				r.Cond(lockAll && !released, "LCK-8", key, w.Pos(cp.Pos()), "every shard lock is taken before the old array is copied and held until the copy is published", shortFn(fn)+" copies the array into a larger one and publishes the copy without holding the per-node shard locks that element writers use (the caller's metaMu does not stop the parallel phase of a batch insert): a node written into the old array after the copy is lost — its id stays registered, VGet says not found, re-adding says already exists", w.Pos(c.Pos()))
+			}
+		}
+	}
+	r.Count("array_publications", n)
+	if n == 0 {
+		r.Und("LCK-8", "anchor:array-publication", "", "no function publishes a freshly allocated node/norm array: growth moved")
+	}
 }
